@@ -203,7 +203,9 @@ def run_check(prop, plan, tier, seed, replay, t0):
         wall_s=round(wall, 2),
         violations=(1 if exit_code else 0),
     )
-    with open(os.path.join(EVIDENCE, f"{prop}.json"), "w") as f:
+    # a --replay run covers one block only: its record goes next to the replay, not into the evidence directory
+    ev_path = os.path.join(WORK, prop, "replay-evidence.json") if replay else os.path.join(EVIDENCE, f"{prop}.json")
+    with open(ev_path, "w") as f:
         json.dump(ev, f, indent=1, default=str)
     print(f"{prop} [{tier}] theorems {len(discharged)}/{len(obligations)} checked; {res.evaluations} ops vs implementation ({len(res.diffs)} disagreements), {res.oracle_checked} oracle checks ({len(res.oracle_fails)} failed, {len(unexplained)} unexplained); {wall:.1f}s; exit {exit_code}")
     return exit_code
